@@ -262,7 +262,8 @@ def gen_lik_noise(p, k, npts):
                     B = 0.25 * refs.full_matrix(r, p, k + 1)
                     F = (lambda x: A @ x) if mk == "matrix" else (lambda x: A @ x + 0.5 * (B @ x) ** 2)
                     ref_logd = lambda x: -0.5 * float((data - F(np.asarray(x, float))) @ P @ (data - F(np.asarray(x, float))))
-                return Case("Likelihood", facets, lik, par_points("default", p, k, npts), fd_targets=[lik], ref_logd=ref_logd)
+                return Case("Likelihood", facets, lik, par_points("default", p, k, npts), fd_targets=[lik], ref_logd=ref_logd,
+                            **O.ipts(p, k, npts))
             yield "Likelihood", keys, facets, build
 
 
@@ -291,7 +292,7 @@ def gen_lik_model(p, k, npts, noise):
                             lik = d.to_likelihood(data)
                         else:
                             lik = d(y=data)
-                        return Case("Likelihood", facets, lik, par_points(geom, p, k, npts), fd_targets=[lik])
+                        return Case("Likelihood", facets, lik, par_points(geom, p, k, npts), fd_targets=[lik], **O.ipts(p, k, npts))
                     yield "Likelihood", keys, facets, build
 
 
@@ -350,6 +351,21 @@ def make_prior(kind, p, k, npts):
     raise ValueError(kind)
 
 
+def prior_int_points(kind, p, k, n):
+    """integer-valued points inside / outside the support of make_prior(kind, ...) (same boxes as there)"""
+    lv = O.locvec(p, k)
+    pv = O.posvec(p, k)
+    if kind == "beta":
+        return O.ipts(p, k, n, lo=0.0, hi=1.0, boundary_out=True)
+    if kind == "invgamma":
+        return O.ipts(p, k, n, lo=lv, boundary_out=True)
+    if kind == "lognormal":
+        return O.ipts(p, k, n, lo=0.0, boundary_out=True)
+    if kind == "uniform":
+        return O.ipts(p, k, n, lo=lv - 1.0, hi=lv + 1.0 + pv)
+    return O.ipts(p, k, n)
+
+
 def _likelihood(mk, geom, p, r, k, noise="gauss-cov-scalar", j=0, name="y"):
     import cuqi
     G = make_domain_geometry(geom, p)
@@ -387,7 +403,7 @@ def gen_posterior(p, k, npts):
                         raise TypeError("joint did not reduce to a Posterior: %s" % type(post).__name__)
                 if geom == "mappedsq-usergrad":
                     ins = [(n_, x + 0.03125) for n_, x in ins]
-                return Case("Posterior", facets, post, ins, out, fd_targets=[post])
+                return Case("Posterior", facets, post, ins, out, fd_targets=[post], **prior_int_points(prior, p, k, npts))
             yield "Posterior", keys, facets, build
 
 
@@ -426,7 +442,8 @@ def gen_mlp(p, k, npts):
                             if not isinstance(obj, D.MultipleLikelihoodPosterior):
                                 raise TypeError("joint did not reduce to MultipleLikelihoodPosterior: %s" % type(obj).__name__)
                         # the FD switch lives on the component densities actually held by the object (conditioning copies them)
-                        return Case("MultipleLikelihoodPosterior", facets, obj, ins, out, fd_targets=list(obj._densities))
+                        return Case("MultipleLikelihoodPosterior", facets, obj, ins, out, fd_targets=list(obj._densities),
+                                    **prior_int_points(prior, p, k, npts))
                     yield "MultipleLikelihoodPosterior", keys, facets, build
     # stacked joint of two distributions (a Distribution without analytic gradient)
     keys = ["pair"]
@@ -440,5 +457,5 @@ def gen_mlp(p, k, npts):
             d2.name = "w"
             obj = D.JointDistribution(d1, d2)._as_stacked()
             pts = [(n1, np.r_[x1, x2]) for (n1, x1), (n2, x2) in zip(i1, i2)]
-            return Case("_StackedJointDistribution", facets, obj, pts, fd_targets=[obj])
+            return Case("_StackedJointDistribution", facets, obj, pts, fd_targets=[obj], **O.ipts(2 * p, k, npts))
         yield "_StackedJointDistribution", keys, facets, build
